@@ -179,6 +179,7 @@ func genTimeStream(rg *rng, st genStats, withQuirks bool) *stream {
 		record{Kind: "D", Local: 7, Arch: arch, Gmn: uint16(fit.MesgNumEvent), Fields: []fieldDefS{{253, 4, 0x86}, {0, 1, 0}}})
 	ts := uint32(0x30000000 + rg.intn(1<<24))
 	haveRef := false
+	nearWrap := false
 	n := 1 + rg.intn(40)
 	off := rg.intn(32)
 	for i := 0; i < n; i++ {
@@ -196,6 +197,12 @@ func genTimeStream(rg *rng, st genStats, withQuirks bool) *stream {
 				if withQuirks {
 					v = uint32(1 + rg.intn(0x0FFFFFFF)) // seconds since power on
 				}
+			case 3:
+				if withQuirks {
+					// a reference within 64 s of 2^32: the compressed records that follow wrap it, sometimes to exactly 0
+					v = uint32(0xFFFFFFFF - 1 - rg.intn(63))
+					nearWrap = true
+				}
 			}
 			if v != 0xFFFFFFFF {
 				haveRef = true
@@ -207,6 +214,21 @@ func genTimeStream(rg *rng, st genStats, withQuirks bool) *stream {
 			}
 			s.Records = append(s.Records, record{Kind: "M", Local: l, Pay: append(put32(be, v), byte(rg.intn(200)))})
 			st["explicit_timestamps"]++
+			if nearWrap {
+				nearWrap = false
+				st["near_wrap_references"]++
+				// walk the offsets forward so that the reference crosses 2^32; half of the time aim the first step at 0
+				o2 := int(v % 32)
+				if rg.bool() {
+					s.Records = append(s.Records, record{Kind: "Z", Local: 1, Offset: 0, Pay: []byte{byte(rg.intn(200))}})
+					o2 = 0
+				}
+				for k, run := 0, 2+rg.intn(8); k < run; k++ {
+					o2 = (o2 + 1 + rg.intn(20)) % 32
+					s.Records = append(s.Records, record{Kind: "Z", Local: 1, Offset: byte(o2), Pay: []byte{byte(rg.intn(200))}})
+				}
+				off = o2
+			}
 			ts += uint32(rg.intn(40))
 		case c < 8: // run of compressed records
 			if !haveRef && !withQuirks && rg.chance(9, 10) {
@@ -271,9 +293,11 @@ func runC12(args []string) int {
 	n := sizes(o.tier, o.boost, 3000, 600000)
 	st := genStats{}
 	timeQuirksInScope = true
-	// the recorded witnesses of the two known findings run first
+	// the recorded witnesses of the two known findings run first (corpus/known/C12-*.json)
 	for _, wit := range []string{"D:5:0:0:0.1.0:0:- M:5:04:- D:1:0:20:3.1.2:0:- D:3:0:34:5.4.134:0:- M:3:00000030:- Z:1:5:64:-",
-		"D:5:0:0:0.1.0:0:- M:5:04:- D:0:0:20:253.4.134,3.1.2:0:- D:1:0:20:3.1.2:0:- M:0:0000000064:- Z:1:5:64:-"} {
+		"D:5:0:0:0.1.0:0:- M:5:04:- D:0:0:20:253.4.134,3.1.2:0:- D:1:0:20:3.1.2:0:- M:0:0000000064:- Z:1:5:64:-",
+		// the same defect reached by 32-bit wrap-around: reference 0xFFFFFFFE, compressed offset 0 lands on 0, the next record is unstamped
+		"D:5:0:0:0.1.0:0:- M:5:04:- D:0:0:20:253.4.134,3.1.2:0:- D:1:0:20:3.1.2:0:- M:0:feffffff64:- Z:1:0:64:- Z:1:5:64:-"} {
 		s := parseRecords(wit)
 		decodeAndJudge(r, w, streamCase{s, readerSpec{Data: s.bytes()}}, optSet{}, "", true)
 	}
